@@ -18,6 +18,7 @@ import autograd.numpy as anp
 import pyerrors as pe
 
 from harness import gen
+from harness.frames import snap, frame_event
 from harness.jsonsafe import rat
 from harness.pe_project import project_obs, project_any, project_exc
 
@@ -209,12 +210,18 @@ def quad_cases(rng, ctx, full):
             out = None
             try:
                 with np.errstate(all='ignore'):
+                    obs_args = [v for v in list(p_args) + [a_arg, b_arg] if isinstance(v, pe.Obs)]
+                    before_q = snap(obs_args)
                     out = pe.integrate.quad(f, p_args, a_arg, b_arg, **qkw)
+                    qframe = frame_event('quad-frame', 'quad leaves the observables among parameters and limits as they were', before_q, obs_args)
                 first = out[0]
                 res = project_any(first)
             except Exception as e:  # noqa: BLE001
                 res = project_exc(e)
             cid = 'quad-%s-%s-%s' % (name, ''.join('o' if s else 'n' for s in sub), cls)
+            if out is not None and nobs:
+                qframe['id'] = cid + '-frame'
+                cases.append(qframe)
             if nobs == 0:
                 cases.append({'id': cid, 'ev': 'plainnum', 'mode': 'quad', 'expr': gen.strip(expr), 'ops': [], 'res': res})
                 # ... and with scipy's own keywords: exactly scipy's result for the same call, entry by entry
